@@ -47,6 +47,11 @@ PROPERTY_BOUNDED = {
 }
 # harnesses that count their non-trivial expectations (a token found, a name resolved, ...): 0 of them means the run proves nothing
 NEEDS_WITNESS = {'function_name', 'relpath', 'discover', 'sourceview', 'ram_bundle', 'index_flatten', 'index_nested', 'hermes_scope'}
+ALL_HARNESSES = ['vlq_encode', 'vlq_decode', 'lookup', 'ordering', 'header', 'hermes_scope', 'index_flatten', 'index_nested', 'rewrite', 'hermes_rewrite', 'raw_keys', 'roundtrip',
+                 'rmi_roundtrip', 'root_setters', 'builder_model', 'relpath', 'discover', 'sourceview', 'function_name', 'ram_bundle', 'decode_extreme', 'decode_document', 'adjust', 'adjust_dups']
+# C05 (nothing panics) runs every harness -- each of them catches panics of the code under test -- but only a panic counts for it
+PROPERTY_BOUNDED['C05'] = list(ALL_HARNESSES)
+PANIC_ONLY = {'C05'}
 _results = {}
 _built = {}
 DEEP = False   # set by check.py in the thorough tier: harnesses enumerate their larger stated spaces
